@@ -41,6 +41,10 @@ type Case struct {
 	Goroutines [][][2]int `json:"goroutines"`
 	Transport  string     `json:"transport"` // unix | tcp
 	Procs      int        `json:"procs,omitempty"`
+	// BigTag > 0: every other verification call carries an argument of that
+	// many bytes (requests and replies larger than common buffer sizes travel
+	// on the shared connection together with the other goroutines' traffic).
+	BigTag int `json:"big_tag,omitempty"`
 }
 
 func genCase(t *rapid.T) Case {
@@ -57,6 +61,7 @@ func genCase(t *rapid.T) Case {
 		maxG = 8
 		vt.Excluded("C19:server-queue-overflow")
 	}
+	c.BigTag = rapid.SampledFrom([]int{0, 0, 2100, 5000, 70000}).Draw(t, "bigtag")
 	g := rapid.IntRange(2, maxG).Draw(t, "goroutines")
 	for i := 0; i < g; i++ {
 		n := rapid.IntRange(1, 4).Draw(t, "requests")
@@ -155,13 +160,16 @@ func checkCase(c Case) error {
 					return
 				}
 				tag := fmt.Sprintf("g%dr%d", gi, ri)
+				if c.BigTag > 0 && (gi+ri)%2 == 0 {
+					tag += strings.Repeat("p", c.BigTag)
+				}
 				res, err := pong.MakePingPong(sess, px).Hello(tag)
 				if err != nil && strings.Contains(err.Error(), "consumer blocked") {
 					firstErr.Store(vt.Violationf("C19:server-queue-overflow", "goroutine %d of %d: call through the proxy of %q was refused: %v", gi, len(c.Goroutines), name, err))
 					return
 				}
 				if err != nil || res != "r:"+tag {
-					firstErr.Store(vt.Violationf("C19:proxy-broken", "goroutine %d: proxy of %q answered (%q, %v) to %s", gi, name, res, err, tag))
+					firstErr.Store(vt.Violationf("C19:proxy-broken", "goroutine %d: proxy of %q answered (%.40q..., %v) to %.40s... (%d bytes)", gi, name, res, err, tag, len(tag)))
 					return
 				}
 			}
